@@ -7,7 +7,9 @@ import monitor_gen as mg
 
 MLS = ("monitor",)
 HARNESSES = ()
-THEOREMS = []
+THEOREMS = ["C18_sees_once", "C18_filter_semantics", "C18_sees_once_refuted", "C18_never_addressee", "C18_never_addressee_refuted",
+            "C18_send_closes", "C18_send_closes_refuted", "C18_owns_nothing", "C18_loses_rules", "C18_no_pending_replies",
+            "C18_switch_effect", "C18_transparent", "C18_erasable", "C18_once_total", "C18_once_total_refuted"]
 
 KNOWN_CLASS = {"unseen-local": "F18b", "monitor-not-closed-local": "F18a", "switch-duplicate": "F18c", "rule-collected": "F18d"}
 
@@ -32,7 +34,7 @@ def load_corpus():
 
 def gen_cases(tier, rnd):
     cases = list(mg.scenarios()) + load_corpus()
-    n = 500 if tier == "quick" else 12000
+    n = 2500 if tier == "quick" else 40000
     for i in range(n):
         cases.append(("gen%d" % i, mg.gen_history(rnd, rnd.randint(6, 22))))
     return cases
